@@ -4,7 +4,9 @@ Always-on search on the real code: programs of the documented subset (systematic
 operator x ordered width pair from {2,3,4} x operand kinds var/var, var/const, const/var, shifts,
 if-expressions, every statement form / builtin / container type once; if / if-else / elif statements
 whose test reads a variable that a branch re-assigns - 21 test forms x 7 placements + 20 hand-written
-latch / countdown / chain programs; then random mixed-width expressions, statement programs and
+latch / countdown / chain programs; 192 chained comparisons (2 / 3 links, constants in every position, written directly,
+made constant by loop variables / constant variables, in if tests / if-expressions / and-or-not) and other constant-folded
+nodes in loop bodies - outside the subset: rejected, or accepted with python's meaning; then random mixed-width expressions, statement programs and
 random members of the re-assigned-test class) are compiled with the real
 `qlassf(src, to_compile=False)` under defaultOptimizer AND fastOptimizer; `qf.expressions` is evaluated on ALL argument assignments by the
 harness' own evaluator (`bexp.eval_json`).  Oracle, independent of qlasskit: `harness/pysem.py`
@@ -331,6 +333,7 @@ def systematic():
     out += nested_ann_programs()
     out += matrix_row_programs()
     out += struct_programs()
+    out += cmpchain_programs()
     return out
 
 
@@ -425,6 +428,131 @@ def nested_ann_programs():
 
 def forelse_programs():
     return [("forelse:" + n, src) for n, src in FORELSE_FORMS]
+
+
+# ---- chained comparisons and the other nodes the two constant-folding passes touch (seeded C01-r8-2) ---------------------
+# A chained comparison is outside the documented subset: the translator rejects it.  The class here: it must not be
+# accepted with another meaning than python's `a op b and b op c` - in particular not after `ConstantFolder` (before the
+# rewriting pass: literals; after it: loop variables and constant variables the rewriter substituted) folded a part of it.
+CHAIN_OPS2 = [("<=", "<"), ("<", "<="), ("==", "!="), (">", ">="), ("!=", "=="), (">=", ">")]
+CHAIN_OPS3 = [("<=", "<", "<="), ("!=", ">=", ">"), ("==", "<", "!=")]
+CHAIN_H = "(a: Qint[2], b: Qint[2])"
+
+
+def _chain(operands, ops):
+    return operands[0] + "".join(f" {o} {x}" for o, x in zip(ops, operands[1:]))
+
+
+def _chain_operands(pattern, shift):
+    """`pattern` over C / V: constants rotate through 0..3 (so that first links are true and false), variables a, b"""
+    out, nc, nv = [], 0, 0
+    for ch in pattern:
+        if ch == "C":
+            out.append(str((shift + 2 * nc + nc // 2) % 4))
+            nc += 1
+        else:
+            out.append("ab"[nv % 2])
+            nv += 1
+    return out
+
+
+def cmpchain_programs():
+    out, k = [], 0
+
+    def add(tag, body, ret="bool"):
+        nonlocal k
+        out.append((f"cmpchain:{tag}", f"def cc_{k}{CHAIN_H} -> {ret}:\n{body}"))
+        k += 1
+
+    # written directly, returned: every position pattern x operator mix (2 links), a part of them for 3 links
+    for pi, pat in enumerate(["CCV", "VCC", "CCC", "VVV", "CVC", "CVV", "VCV", "VVC"]):
+        for oi, ops in enumerate(CHAIN_OPS2):
+            add(f"ret2:{pat}", f"\treturn {_chain(_chain_operands(pat, pi + oi), ops)}")
+    # the first link true on purpose (a folder that keeps the first link only answers True)
+    for ops, c0, c1 in (("<=", "<"), "0", "1"), (("<", "<="), "0", "2"), (("==", "<"), "1", "1"), (("!=", ">"), "3", "2"), \
+            ((">=", "=="), "3", "3"), ((">", "!="), "2", "1"):
+        add("ret2:CCV-true", f"\treturn {c0} {ops[0]} {c1} {ops[1]} a")
+        add("ret2:VCC-true", f"\treturn a {ops[1]} {c1} {ops[0].replace('<', '§').replace('>', '<').replace('§', '>')} {c0}")
+    for pi, pat in enumerate(["CCVV", "VVCC", "CCCC", "VVVV", "CCCV", "CVCV", "VCCV"]):
+        for oi, ops in enumerate(CHAIN_OPS3):
+            add(f"ret3:{pat}", f"\treturn {_chain(_chain_operands(pat, pi + oi), ops)}")
+    add("ret3:CCCV-true", "\treturn 0 <= 1 < 2 <= a")
+    add("ret3:CCVV-true", "\treturn 0 < 1 <= a < b")
+    # contexts: if test, if-expression, and / or / not, assignment
+    for tag, ch in (("CCV", "0 <= 1 < a"), ("VCC", "a < 2 <= 3"), ("CVC", "1 <= a < 3"), ("CCC", "0 < 1 < 2"),
+                    ("CCCV", "0 < 1 < 2 <= a")):
+        add(f"if:{tag}", f"\tr = b\n\tif {ch}:\n\t\tr = r + 1\n\treturn r", "Qint[2]")
+        add(f"ifelse:{tag}", f"\tif {ch}:\n\t\tr = a\n\telse:\n\t\tr = b\n\treturn r", "Qint[2]")
+        add(f"ifexp:{tag}", f"\treturn a if {ch} else b", "Qint[2]")
+        add(f"and:{tag}", f"\treturn {ch} and a != b")
+        add(f"or:{tag}", f"\treturn a == b or {ch}")
+        add(f"not:{tag}", f"\treturn not ({ch})")
+        add(f"assign:{tag}", f"\tc = {ch}\n\treturn c")
+    # produced by loop-variable substitution (range, tuple and list literals, nested loops)
+    for it in ("range(3)", "range(1, 4)", "(0, 2, 3)", "[3, 1]"):
+        for ch in ("0 <= i < a", "i <= 1 < a", "a > i >= 1", "0 < i != a", "i == i <= a", "0 <= i < 2 <= a", "b <= i < a"):
+            add("loop-if", f"\tc = 0\n\tfor i in {it}:\n\t\tif {ch}:\n\t\t\tc += 1\n\treturn c", "Qint[2]")
+    add("loop-ifexp", "\tc = 0\n\tfor i in range(3):\n\t\tc = c + (1 if 0 <= i < a else 0)\n\treturn c", "Qint[2]")
+    add("loop-and", "\tr = False\n\tfor i in range(1, 3):\n\t\tr = r or (0 < i <= a and b != i)\n\treturn r")
+    add("loop-nested", "\tc = 0\n\tfor i in range(2):\n\t\tfor j in range(2):\n\t\t\tif i <= j < a:\n\t\t\t\tc += 1\n\treturn c", "Qint[4]")
+    add("loop-else", "\tc = 0\n\tfor i in range(2):\n\t\tc += 1\n\telse:\n\t\tif 0 <= i < a:\n\t\t\tc += 1\n\treturn c", "Qint[2]")
+    # produced by constant variables
+    add("constvar-if", "\tk = 2\n\tr = b\n\tif 1 < k < a:\n\t\tr = 0\n\treturn r", "Qint[2]")
+    add("constvar-ret", "\tk = 1\n\treturn 0 <= k < a")
+    add("constvar-ret", "\tk = 1\n\tm = 2\n\treturn k < m <= a")
+    add("constvar-ret", "\tk = 3\n\treturn a <= k == 3")
+    add("constvar-loop", "\tk = 1\n\tc = 0\n\tfor i in range(3):\n\t\tif k <= i < a:\n\t\t\tc += 1\n\treturn c", "Qint[2]")
+    # the other nodes the folding passes touch, made constant by a loop variable / a constant variable
+    for tag, stmt in (
+            ("not", "if not i:\n\t\t\tc += 1"), ("not-not", "if not (not i):\n\t\t\tc += 1"),
+            ("usub", "c = c + (-i + 3)"), ("usub-sub", "c = c - (-i)"), ("uadd", "c = c + (+i)"), ("invert", "c = c + (~i + 4)"),
+            ("pow", "c = c + i ** 2"), ("pow-base", "c = c + 2 ** i"), ("pow-var", "c = c + a ** i"),
+            ("floordiv", "c = c + i // 2"), ("floordiv-by", "c = c + 7 // (i + 1)"), ("mod", "c = c + i % 2"),
+            ("mod-by", "c = c + 7 % (i + 1)"), ("mod-var", "c = c + a % (2 ** i)"), ("shift", "c = c + (a << i) + (a >> i)"),
+            ("cmp-bool-const", "if (i == 1) == True:\n\t\t\tc += 1"), ("cmp-bool-const", "if (i > 0) != False:\n\t\t\tc += 1"),
+            ("cmp-bool-const", "if (i > 0) < True:\n\t\t\tc += 1"), ("cmp-bool-const", "if (i > 1) >= (i > 0):\n\t\t\tc += 1"),
+            ("cmp-bool-var", "if (i > 0) == (a > 1):\n\t\t\tc += 1"),
+            ("is", "if (i > 0) is True:\n\t\t\tc += 1"), ("is-not", "if (i > 0) is not False:\n\t\t\tc += 1"),
+            ("is-var", "if (a > i) is True:\n\t\t\tc += 1"),
+            ("in", "if i in (0, 2):\n\t\t\tc += 1"), ("not-in", "if i not in [1]:\n\t\t\tc += 1"),
+            ("in-var", "if a in (i, 3):\n\t\t\tc += 1"),
+            ("ifexp-const", "c = c + (a if i else b)"), ("boolop-const", "if i > 0 and a > i:\n\t\t\tc += 1"),
+            ("boolop-const", "if i == 0 or a > i:\n\t\t\tc += 1")):
+        out.append((f"loopfold:{tag}", f"def cc_{k}{CHAIN_H} -> Qint[4]:\n\tc = 0\n\tfor i in range(3):\n\t\t{stmt}\n\treturn c"))
+        k += 1
+    for tag, body in (("not", "\tk = 0\n\treturn a if not k else b"), ("usub", "\tk = 1\n\treturn a + (-k + 2)"),
+                      ("pow", "\tk = 2\n\treturn a + k ** 2"), ("floordiv", "\tk = 3\n\treturn a + k // 2"),
+                      ("mod", "\tk = 3\n\treturn a + k % 2"), ("cmp-bool-const", "\tk = True\n\treturn a if k == True else b"),
+                      ("is", "\tk = True\n\treturn a if k is True else b"), ("in", "\tk = 2\n\treturn a if k in (1, 2) else b")):
+        out.append((f"constfold:{tag}", f"def cc_{k}{CHAIN_H} -> Qint[4]:\n{body}"))
+        k += 1
+    return out
+
+
+def gen_cmpchain_program(rng, k):
+    """random member of the class: 2 or 3 links, operands constants / arguments / a loop variable / a constant variable,
+    in a random context"""
+    n = rng.choice([2, 2, 3])
+    loop = rng.random() < 0.6
+    cvar = rng.random() < 0.3
+    pool = ["0", "1", "2", "3", "a", "b"] + (["i", "i", "i"] if loop else []) + (["k", "k"] if cvar else [])
+    ops = [rng.choice(["==", "!=", "<", "<=", ">", ">="]) for _ in range(n)]
+    ch = _chain([rng.choice(pool) for _ in range(n + 1)], ops)
+    ctx_ = rng.choice(["if", "ifexp", "and", "not"])
+    test = {"if": ch, "ifexp": ch, "and": f"{ch} and a != {rng.randrange(4)}", "not": f"not ({ch})"}[ctx_]
+    ind = "\t\t" if loop else "\t"
+    if ctx_ == "ifexp":
+        st = f"{ind}c = c + (1 if {test} else 0)\n"
+    else:
+        st = f"{ind}if {test}:\n{ind}\tc += 1\n"
+    it = rng.choice(["range(3)", "range(1, 4)", "(0, 3)", "[2, 1]"])
+    src = f"def rc_{k}{CHAIN_H} -> Qint[2]:\n\tc = 0\n"
+    if cvar:
+        src += f"\tk = {rng.randrange(4)}\n"
+    if loop:
+        src += f"\tfor i in {it}:\n"
+    return src + st + "\treturn c"
+
 
 
 # ---- loops / len / sum / any / all over a row `m[c]` of a matrix that need not be square (repaired 91ca3b4) --------------
@@ -1779,6 +1907,14 @@ def run(ctx: Ctx) -> Result:
             if len(batch) >= 400:
                 settle(ctx, res, batch, stats)
                 batch = []
+        # randomised chained comparisons: drawn after everything else (the wide stream draws rows from ctx.rng
+        # while it is observed), so that every earlier stream keeps its random numbers
+        for k in range(120 if ctx.thorough else 16):
+            src = gen_cmpchain_program(rng, k)
+            c = observe(lib, "rand:cmpchain", src, budget=6 if ctx.thorough else 5)
+            res.count(dict(src=src), nontrivial=nontrivial(c), bucket="rand:cmpchain")
+            stats["cpython_rows"] += c.cpython_rows
+            batch.append(c)
         settle(ctx, res, batch, stats)
         run_a2a_forms(ctx, lib, res, stats)
     res.extra["c01"] = stats
